@@ -186,6 +186,9 @@ ConsumeCond(p) == IF p.conds # <<>> THEN Tail(p.conds) ELSE p.conds      \* a on
 (* "at least one byte can be read" (before the stream reports a condition) *)
 CanRead(p) == ~p.bodyNil /\ ~p.everClosed /\ p.delivered < Limit(p)
 
+(* The answer is a function of the declared length and of the stream only:  *)
+(* the request METHOD (GET, HEAD, POST, ... in any letter case) is not a    *)
+(* parameter - the driver varies it over every case.                        *)
 HasAnswer(p) == p.declared = "pos" \/ (p.declared = "absent" /\ CanRead(p))
 
 (* PeekSwallowsCondition (named deviation, what bufio.Peek does): a probing *)
